@@ -644,6 +644,52 @@ pub mod deep {
     }
 }
 
+/// Module and type names that differ only by trailing digits (`v1` next to `v10`,
+/// `Foo` next to `Foo1`): orderings of joined versus segment-wise paths disagree here.
+pub mod numbered {
+    use super::*;
+    macro_rules! versioned {
+        ($m:ident, $t:ty) => {
+            pub mod $m {
+                use super::*;
+                #[derive(TypeInfo)]
+                pub struct Event {
+                    pub v: $t,
+                }
+                #[derive(TypeInfo)]
+                pub struct Foo1 {
+                    pub w: ($t, u8),
+                }
+                pub mod inner {
+                    use super::*;
+                    #[derive(TypeInfo)]
+                    pub struct Foo {
+                        pub x: Vec<$t>,
+                    }
+                }
+            }
+        };
+    }
+    versioned!(v1, u8);
+    versioned!(v10, u16);
+    versioned!(v11, u32);
+    versioned!(v12, u64);
+    versioned!(v2, bool);
+    #[derive(TypeInfo)]
+    pub struct Root {
+        pub a: v1::Event,
+        pub b: v10::Event,
+        pub c: v11::Event,
+        pub d: v12::Event,
+        pub e: v2::Event,
+        pub f: (v1::Foo1, v10::Foo1, v11::Foo1, v12::Foo1, v2::Foo1),
+        pub g: (v1::inner::Foo, v10::inner::Foo, v11::inner::Foo, v12::inner::Foo, v2::inner::Foo),
+    }
+    pub fn metas() -> Vec<MetaType> {
+        metas![Root]
+    }
+}
+
 /// Every named type below `Root` is reachable through exactly one kind of edge,
 /// so that dropping one arm of a graph traversal is observable.
 pub mod reach {
@@ -1011,6 +1057,7 @@ pub fn families() -> Vec<Entry> {
         ("calls", calls::metas()),
         ("deep", deep::metas()),
         ("reach", reach::metas()),
+        ("numbered", numbered::metas()),
         ("awkward_ok", awkward_ok::metas()),
         ("awkward_rawident", awkward_rawident::metas()),
         ("awkward_duration", awkward_duration::metas()),
